@@ -274,6 +274,7 @@ type Ec2Sim struct {
 	tick       int
 	pending    map[string]bool // fleet instances acquired and not yet attached
 	launch     time.Time
+	statusOmit int // DescribeInstanceStatus leaves out this many of the newest instances
 }
 
 func newAwsSim(rec *Recorder) *AwsSim {
@@ -528,11 +529,16 @@ func (e *Ec2Sim) DescribeInstanceStatusPages(in *ec2.DescribeInstanceStatusInput
 		e.rec.record(cDescribeStatus(ids), false, rFail())
 		return e.rec.awsErr()
 	}
-	// pages of <= 100 statuses; at a not-ready tick the last instance is "pending"
+	// eventual consistency: the newest instances may not be listed yet
+	listed := ids
+	if e.statusOmit > 0 && len(ids) > e.statusOmit {
+		listed = ids[:len(ids)-e.statusOmit]
+	}
+	// pages of <= 100 statuses; at a not-ready tick the last listed instance is "pending"
 	pages := [][]bool{}
 	cur := []bool{}
-	for i := range ids {
-		running := !(e.notReady[tick] && i == len(ids)-1)
+	for i := range listed {
+		running := !(e.notReady[tick] && i == len(listed)-1)
 		cur = append(cur, running)
 		if len(cur) == 100 {
 			pages = append(pages, cur)
